@@ -410,6 +410,36 @@ Definition end_block (s : state) (e : env) : state * list event :=
   let '(s2, ev2) := run_queue (fun st id => h_finalize st e id) (g_qfin s) s1 in
   (mkS (g_h s2) (g_props s2) (g_bal s2) (g_pool s2) [] [] (g_anom s2) (g_applied s2) (g_blk s2), ev1 ++ ev2).
 
+(* ---- export (cmd/olfullnode/save_state.go DumpGovProposalsToFile) and import (ProposalMasterStore.LoadProposals) ---- *)
+Definition with_deadlines (p : prec) (fdl vdl : Z) : prec :=
+  mkP (p_store p) (p_status p) (p_outcome p) (p_type p) (p_proposer p) fdl vdl (p_goal p)
+      (p_pass p) (p_total p) (p_indiv p) (p_votes p) (p_snapblk p) (p_newf p) (p_extra p).
+
+(* the dump walks the five stores; the deadlines of ACTIVE proposals are made relative to the exported version (the new
+   chain starts at height 0), clamped at 0; everything else is written as it is *)
+Definition dump_rec (ver : Z) (p : prec) : prec :=
+  if bool_decide (p_store p = SActive)
+  then with_deadlines p (Z.max 0 (p_fdl p - ver)) (Z.max 0 (p_vdl p - ver)) else p.
+Definition dump (s : state) (ver : Z) : list (N * prec) :=
+  map (fun kv => (kv.1, dump_rec ver kv.2)) (map_to_list (g_props s)).
+
+(* LoadProposals: Set the record under its store prefix; for every exported vote Setup (validator, power) then Update
+   (opinion); for every exported fund record AddFunds (the total is rebuilt as the sum) *)
+Definition load_votes (vs : list vote) : list vote :=
+  fold_left (fun acc v => match vote_update (v_val v) (v_op v) (vote_setup (v_val v) (v_power v) acc) with
+                          | Some acc' => acc' | None => acc end) vs [].
+Definition load_funds (blk : Z) (p : prec) (ind : list (N * Z)) : prec :=
+  fold_left (fun q kv => add_funds blk q kv.1 kv.2) ind (with_newf (with_funds p 0 []) []).
+Definition load_rec (blk : Z) (p : prec) : prec :=
+  let q := load_funds blk p (p_indiv p) in
+  mkP (p_store q) (p_status q) (p_outcome q) (p_type q) (p_proposer q) (p_fdl q) (p_vdl q) (p_goal q)
+      (p_pass q) (p_total q) (p_indiv q) (load_votes (p_votes p)) blk (p_newf q) (p_extra q).
+Definition load (blk : Z) (l : list (N * prec)) : gmap N prec :=
+  list_to_map (map (fun kv => (kv.1, load_rec blk kv.2)) l).
+
+Definition reload (s : state) (ver : Z) (bals : list (N * Z)) (pool : Z) : state :=
+  mkS 0 (load (g_blk s) (dump s ver)) (list_to_map bals) pool [] [] (g_anom s) (g_applied s) (g_blk s).
+
 (* ---- the fee step of a public transaction (BasicFeeHandling); expire/finalize charge nothing ---- *)
 Definition charge (r : hres) (payer : N) (fee : Z) : hres :=
   match r with
@@ -470,3 +500,23 @@ Definition trig_negative_amount (t : txop) : bool :=
    percentage (the vote handler decided with a different, current option percentage) *)
 Definition trig_failed_but_passing (p : prec) : bool :=
   bool_decide (p_store p = SFailed) && bool_decide (tally (p_votes p) (p_pass p) = RPassed).
+
+(* ---- histories with relaunches: the chain may be relaunched from an exported state (olfullnode save_state -> genesis ->
+   LoadProposals) between two operations; [ver] is the version (height) of the exported state, [bals] / [pool] the
+   balances and the fee pool of the new genesis ---- *)
+Inductive hop :=
+| HOp (t : txop)
+| HReload (ver : Z) (bals : list (N * Z)) (pool : Z).
+
+Definition hstep (s : state) (h : hop) : state * bool * list event :=
+  match h with
+  | HOp t => step s t
+  | HReload ver bals pool => (reload s ver bals pool, true, [])
+  end.
+
+Fixpoint hrun (s : state) (hs : list hop) : state * list event :=
+  match hs with
+  | [] => (s, [])
+  | h :: r => let '(s1, _, ev) := hstep s h in
+              let '(s2, ev2) := hrun s1 r in (s2, ev ++ ev2)
+  end.
